@@ -331,7 +331,7 @@ def main(tier):
         "functions_encoded": encoded,
         "stubs_used": sorted(stubs),
         "bounds": "strings: all strings over Unicode scalar values up to U+2FFFF (z3's character sort), no length "
-                  "bound; splitter values: str / int / float (str(float) uninterpreted) / True / False / None; "
+                  "bound; splitter values: str / int below CPython's str() digit limit (10^4300) / float (str(float) uninterpreted) / True / False / None; "
                   "programs: the splitter family (1-4 splitters, every declaration order, 9 salts, 4 bodies)",
     }
     common.write_evidence(PROP, "translation_validation", coverage,
